@@ -74,6 +74,8 @@ def simp(t):
                 return t[2][0]
         if head(f) == "ite":
             return simp(("ite", f[1], simp(("call", f[2], t[2], t[3])), simp(("call", f[3], t[2], t[3]))))
+        if head(f) == "attr" and is_const(f[1]) and isinstance(f[1][2], str) and f[2] in ("upper", "lower") and not t[2] and not t[3]:
+            return const(getattr(f[1][2], f[2])())
         return t
     if h == "glob" and t[1] in ("numpy.inf", "math.inf"):
         return INF
@@ -124,6 +126,13 @@ def simp(t):
         return t
     if h == "alloc":
         return t[2]
+    if h == "sub" and is_const(t[1]) and isinstance(t[1][2], str) and is_const(t[2]) and isinstance(t[2][2], int) and -len(t[1][2]) <= t[2][2] < len(t[1][2]):
+        return const(t[1][2][t[2][2]])
+    if h == "fstr" and all(is_const(p) or (p[0] == "fmt" and is_const(p[1]) and isinstance(p[1][2], str) and p[2] == -1 and p[3] is None) for p in t[1]):
+        return const("".join(p[2] if is_const(p) else p[1][2] for p in t[1]))
+    if h == "bin" and is_const(t[2]) and is_const(t[3]) and all(isinstance(x[2], (int, float)) and not isinstance(x[2], bool) for x in (t[2], t[3])) and t[1] in ("+", "-", "*"):
+        a, b = t[2][2], t[3][2]
+        return const(a + b if t[1] == "+" else a - b if t[1] == "-" else a * b)
     if h == "sub" and head(t[1]) == "tuple" and is_const(t[2]) and isinstance(t[2][2], int) and -len(t[1][1]) <= t[2][2] < len(t[1][1]):
         return t[1][1][t[2][2]]
     if h == "item" and head(t[1]) == "tuple" and isinstance(t[2], int) and t[2] < len(t[1][1]):
@@ -165,6 +174,7 @@ class Roles:
         self.roles = {}          # qualname -> {term: role}
         self.attr_roles = {}     # class qualname -> {attr: role}
         self.block = {}          # slot -> role   (the _cal_params tuple)
+        self.conflicts = []      # [(callee, parameter term, first role, other role)]
         self._build()
 
     def of(self, q):
@@ -195,7 +205,10 @@ class Roles:
     def _set(self, q, key, role):
         m = self.roles.setdefault(q, {})
         if key in m and m[key] != role:
-            raise AnalysisBroken(f"{q}: {show(key)} receives two different API quantities ({m[key]} and {role}); role propagation is ambiguous")
+            c = (q, key, m[key], role)
+            if c not in self.conflicts:
+                self.conflicts.append(c)
+            return False
         if key not in m:
             m[key] = role
             return True
@@ -614,6 +627,9 @@ class NN:
                 kind = {LEV: "LEV", HAM: "HAM", HAMREP: "HAMREP", CALLABLE: "CUST"}.get(f)
                 if kind:
                     return {"kind": kind, "ops": (d[2][0], d[2][1]), "implied": []}
+            if head(f) == "glob" and len(d[2]) == 2:
+                # some other two-argument function used as the distance: decided (wrong kind), not unreadable
+                return {"kind": "OTHER:" + f[1] + ("(" + ",".join(k for k, _ in d[3]) + ")" if d[3] else ""), "ops": (d[2][0], d[2][1]), "implied": []}
             return None
         if head(d) == "item" and head(strip(d[1])) in ("iter", "citer"):
             it = strip(strip(d[1])[-1])
